@@ -186,4 +186,349 @@ theorem refs_rewritten_partial {V : Type} (s : Sch V) (h2 : addlRef s = false) (
       · exact ihc h2.1 h3.1 k hk
       · exact ihr h2.2 h3.2 k hk
 
+/-! ## parameters and headers -/
+
+/-- items of a parameter / header inside the fragment of `toV3S_preserves_partial` -/
+def itemsOK3 {V : Type} (o : Option (Sch V)) : Bool := o.all (fun s => !addlImpure s && v2Refs s)
+/-- … and of `roundtripS_partial` -/
+def itemsOKBack {V : Type} (o : Option (Sch V)) : Bool := o.all (fun s => !hasDisc s && !addlRef s && v2Refs s)
+
+/-- the schema ToV3Parameter builds carries exactly the parameter's constraints -/
+theorem paramSchema_preserves {V : Type} (p : Param2 V) (hi : itemsOK3 p.items = true) :
+    abs3S (toV3S (paramSchema2 p)) = paramCons2 p := by
+  unfold paramSchema2 paramCons2
+  simp only [toV3S, abs3S, abs2S]
+  congr 1
+  · simp [abs3Hd, toV3Hd, abs2Hd, sc_param_toV3]
+  · cases hit : p.items with
+    | none => simp [itemsKids, toV3Kids, abs3Kids, abs2Kids]
+    | some s =>
+      simp only [itemsOK3, hit, Option.all_some, Bool.and_eq_true, Bool.not_eq_true'] at hi
+      simp [itemsKids, toV3Kids, abs3Kids, abs2Kids, toV3S_preserves_partial s hi.1 hi.2]
+
+/-- **each (query / header / path) parameter keeps name, location, requiredness and constraints** in ToV3 -/
+theorem toV3Param_preserves {V : Type} (p : Param2 V) (h1 : p.loc ≠ "body") (h2 : p.loc ≠ "formData")
+    (hi : itemsOK3 p.items = true) : paramA3 (.val (toV3Param p)) = inputA2 (.val p) := by
+  simp [paramA3, inputA2, toV3Param, h1, h2, paramSchema_preserves p hi]
+
+theorem paramSchema_roundtrip {V : Type} (p : Param2 V) (hi : itemsOKBack p.items = true) :
+    paramCons2 (fromV3Param (toV3Param p)) = paramCons2 p := by
+  unfold fromV3Param toV3Param paramSchema2 paramCons2
+  simp only [toV3S, fromV3S, abs2S]
+  congr 1
+  · simp [abs2Hd, fromV3Hd, toV3Hd, fileToBinary_idem, sc_param_roundtrip]
+  · cases hit : p.items with
+    | none => simp [itemsKids, toV3Kids, fromV3Kids, kidItems, abs2Kids]
+    | some s =>
+      simp only [itemsOKBack, hit, Option.all_some, Bool.and_eq_true, Bool.not_eq_true'] at hi
+      simp [itemsKids, toV3Kids, fromV3Kids, kidItems, abs2Kids, roundtripS_partial s hi.1.1 hi.1.2 hi.2]
+
+/-- **… and gets them back** from FromV3Parameter -/
+theorem roundtripParam {V : Type} (p : Param2 V) (h1 : p.loc ≠ "body") (h2 : p.loc ≠ "formData")
+    (hi : itemsOKBack p.items = true) :
+    inputA2 (.val (fromV3Param (toV3Param p))) = inputA2 (.val p) := by
+  have hc := paramSchema_roundtrip p hi
+  have hl : (fromV3Param (toV3Param p)).loc = p.loc := by simp [fromV3Param, toV3Param, toV3S, paramSchema2, fromV3S]
+  have hn : (fromV3Param (toV3Param p)).name = p.name := by simp [fromV3Param, toV3Param, toV3S, paramSchema2, fromV3S]
+  have hr : (fromV3Param (toV3Param p)).required = (p.required || p.loc == "path") := by
+    simp [fromV3Param, toV3Param, toV3S, paramSchema2, fromV3S]
+  simp only [inputA2, hl, hn, hr, hc, h1, h2, if_false, Bool.or_assoc, Bool.or_self]
+
+/-! ## form-data fields -/
+
+/-- **a form parameter becomes a property of the request body's object schema with the same constraints**,
+    and the bookkeeping `required` entry formDataBody reads is the parameter's requiredness -/
+theorem toV3Form_preserves {V : Type} (p : Param2 V) (hi : itemsOK3 p.items = true) :
+    abs3S (clearReq (toV3FormProp p)) = paramCons2 p ∧ propRequired p.name (toV3FormProp p) = p.required := by
+  constructor
+  · unfold toV3FormProp paramCons2
+    simp only [clearReq, abs3S, abs2S]
+    congr 1
+    · simp [abs3Hd, abs2Hd, sc_form_toV3]
+    · cases hit : p.items with
+      | none => simp [itemsKids, abs3Kids, abs2Kids]
+      | some s =>
+        simp only [itemsOK3, hit, Option.all_some, Bool.and_eq_true, Bool.not_eq_true'] at hi
+        simp [itemsKids, abs3Kids, abs2Kids, toV3S_preserves_partial s hi.1 hi.2]
+  · cases hr : p.required <;> simp [toV3FormProp, propRequired, hr]
+
+/-- exclusion (findings #21c and F-C17-4): the way back loses `required` and `format` of an inline form field -/
+def formLossy {V : Type} (p : Param2 V) : Bool :=
+  p.required || (p.cons.fmt.isSome && p.cons.ty != some "file")
+
+/-- Full statement: `inputA2 (fromV3FormProp p.name (clearReq (toV3FormProp p))) = inputA2 (.val p)` for every
+    formData parameter. It fails inside `formLossy`. -/
+theorem roundtripForm_partial {V : Type} (p : Param2 V) (hl : p.loc = "formData") (hx : formLossy p = false)
+    (hi : itemsOKBack p.items = true) :
+    inputA2 (fromV3FormProp p.name (clearReq (toV3FormProp p))) = inputA2 (.val p) := by
+  simp only [formLossy, Bool.or_eq_false_iff, Bool.and_eq_false_iff] at hx
+  have hreq := hx.1
+  unfold toV3FormProp
+  simp only [clearReq, fromV3FormProp, inputA2, hl, hreq]
+  simp only [show ("formData" : String) ≠ "body" by decide, if_false, if_true, List.contains_nil]
+  congr 1
+  unfold paramCons2
+  simp only [abs2S]
+  congr 1
+  · rcases hx.2 with hf | ht
+    · have : p.cons.fmt = none := by simpa using hf
+      by_cases hfile : p.cons.ty = some "file"
+      · simp [abs2Hd, fileToBinary, hfile, sc_form_roundtrip]
+      · simp [abs2Hd, fileToBinary, hfile, this, sc_form_roundtrip]
+    · have hfile : p.cons.ty = some "file" := by simpa using ht
+      simp [abs2Hd, fileToBinary, hfile, sc_form_roundtrip]
+  · cases hit : p.items with
+    | none => simp [itemsKids, kidItems, abs2Kids]
+    | some s =>
+      simp only [itemsOKBack, hit, Option.all_some, Bool.and_eq_true, Bool.not_eq_true'] at hi
+      simp [itemsKids, kidItems, abs2Kids, roundtripS_partial s hi.1.1 hi.1.2 hi.2]
+
+/-- witness (#21c): a required form field comes back optional -/
+theorem roundtripForm_witness_required :
+    let p : Param2 Nat := { name := "f", loc := "formData", required := true, cons := { ty := some "string" },
+                            items := none, schema := none }
+    formLossy p = true ∧ inputA2 (fromV3FormProp p.name (clearReq (toV3FormProp p))) ≠ inputA2 (.val p) := by
+  simp [formLossy, toV3FormProp, clearReq, fromV3FormProp, inputA2]
+
+/-- witness (F-C17-4): `format: date` of a form field is lost -/
+theorem roundtripForm_witness_format :
+    let p : Param2 Nat := { name := "f", loc := "formData", required := false,
+                            cons := { ty := some "string", fmt := some "date" }, items := none, schema := none }
+    formLossy p = true ∧ inputA2 (fromV3FormProp p.name (clearReq (toV3FormProp p))) ≠ inputA2 (.val p) := by
+  simp [formLossy, toV3FormProp, clearReq, fromV3FormProp, inputA2, paramCons2, abs2S, abs2Hd, fileToBinary]
+
+/-- non-vacuity: an optional file upload and an optional constrained array field are outside the exclusion -/
+example :
+    let p : Param2 Nat := { name := "up", loc := "formData", required := false, cons := { ty := some "file" },
+                            items := none, schema := none }
+    let q : Param2 Nat := { name := "l", loc := "formData", required := false,
+                            cons := { ty := some "array", sc := [("maxItems", 3)] },
+                            items := some (.node { ty := some "integer", sc := [("minimum", 1)] } []), schema := none }
+    formLossy p = false ∧ formLossy q = false ∧ itemsOKBack q.items = true ∧ itemsOK3 q.items = true := by
+  decide
+
+/-! ## responses -/
+
+def headerOK3 {V : Type} (h : String × Param2 V) : Bool := itemsOK3 h.2.items
+def headerOKBack {V : Type} (h : String × Param2 V) : Bool := itemsOKBack h.2.items
+def schemaOK3 {V : Type} (o : Option (Sch V)) : Bool := o.all (fun s => !addlImpure s && v2Refs s)
+def schemaOKBack {V : Type} (o : Option (Sch V)) : Bool := o.all (fun s => !hasDisc s && !addlRef s && v2Refs s)
+
+theorem headers_preserved {V : Type} (hs : List (String × Param2 V)) (h : hs.all headerOK3 = true) :
+    (hs.map (fun (x : String × Param2 V) => (x.1, toV3Param { x.2 with name := "", loc := "" }))).map
+      (fun (x : String × Param3 V) => (x.1, abs3S x.2.schema)) =
+    hs.map (fun (x : String × Param2 V) => (x.1, paramCons2 x.2)) := by
+  induction hs with
+  | nil => rfl
+  | cons x rest ih =>
+    simp only [List.all_cons, Bool.and_eq_true] at h
+    simp only [List.map_cons, ih h.2]
+    congr 1
+    have := paramSchema_preserves { x.2 with name := "", loc := "" } (by simpa [headerOK3] using h.1)
+    simp only [toV3Param]
+    rw [this]
+    rfl
+
+/-- **each response keeps its description, its headers (with their constraints) and its schema** in
+    ToV3Response — with or without a schema, whatever `produces` says; a reference is rewritten -/
+theorem toV3Resp_preserves {V : Type} (produces : List String) (r : RRef2 V)
+    (hok : match r with
+      | .ref k _ => k.isV2 = true
+      | .val x => x.headers.all headerOK3 = true ∧ schemaOK3 x.schema = true) :
+    respA3 (toV3Resp produces r) = respA2 r := by
+  cases r with
+  | ref k n => cases k <;> simp_all [toV3Resp, respA3, respA2, toV3RK, absRK3, absRK2, RK.isV2]
+  | val x =>
+    simp only at hok
+    simp only [toV3Resp, respA3, respA2]
+    congr 1
+    have hh := headers_preserved x.headers hok.1
+    cases hs : x.schema with
+    | none =>
+      simp only [Option.map_none, List.isEmpty_nil, if_true]
+      congr 1
+    | some s =>
+      have hne : (effProduces produces).isEmpty = false := by
+        unfold effProduces; cases hp : produces.isEmpty <;> simp [hp]
+      simp only [schemaOK3, hs, Option.all_some, Bool.and_eq_true, Bool.not_eq_true'] at hok
+      simp only [Option.map_some, hne, toV3S_preserves_partial s hok.2.1 hok.2.2]
+      congr 1
+
+/-- exclusion (finding #26): the response has a schema and `produces` lacks application/json -/
+def respLossy {V : Type} (produces : List String) : RRef2 V → Bool
+  | .ref _ _ => false
+  | .val x => x.schema.isSome && !(effProduces produces).contains "application/json"
+
+theorem headers_roundtrip {V : Type} (hs : List (String × Param2 V)) (h : hs.all headerOKBack = true) :
+    ((hs.map (fun (x : String × Param2 V) => (x.1, toV3Param { x.2 with name := "", loc := "" }))).map
+      (fun (x : String × Param3 V) => (x.1, { fromV3Param x.2 with name := "", loc := "" }))).map
+      (fun (x : String × Param2 V) => (x.1, paramCons2 x.2)) =
+    hs.map (fun (x : String × Param2 V) => (x.1, paramCons2 x.2)) := by
+  induction hs with
+  | nil => rfl
+  | cons x rest ih =>
+    simp only [List.all_cons, Bool.and_eq_true] at h
+    simp only [List.map_cons, ih h.2]
+    congr 1
+    have := paramSchema_roundtrip { x.2 with name := "", loc := "" } (by simpa [headerOKBack] using h.1)
+    simp only [paramCons2] at this ⊢
+    simpa [fromV3Param, toV3Param, toV3S, fromV3S, paramSchema2] using this
+
+/-- Full statement: `respA2 (fromV3Resp (toV3Resp produces r)) = respA2 r`. It fails inside `respLossy`. -/
+theorem roundtripResp_partial {V : Type} (produces : List String) (r : RRef2 V) (hx : respLossy produces r = false)
+    (hok : match r with
+      | .ref k _ => k.isV2 = true
+      | .val x => x.headers.all headerOKBack = true ∧ schemaOKBack x.schema = true) :
+    respA2 (fromV3Resp (toV3Resp produces r)) = respA2 r := by
+  cases r with
+  | ref k n => cases k <;> simp_all [toV3Resp, fromV3Resp, respA2, toV3RK, fromV3RK, absRK2, RK.isV2]
+  | val x =>
+    simp only at hok
+    simp only [toV3Resp, fromV3Resp, respA2]
+    congr 1
+    have hh := headers_roundtrip x.headers hok.1
+    cases hs : x.schema with
+    | none => simp only [Option.map_none, ite_self]; congr 1
+    | some s =>
+      simp only [respLossy, hs, Option.isSome_some, Bool.true_and, Bool.not_eq_false'] at hx
+      simp only [schemaOKBack, hs, Option.all_some, Bool.and_eq_true, Bool.not_eq_true'] at hok
+      simp only [Option.map_some, hx, if_true, roundtripS_partial s hok.2.1.1 hok.2.1.2 hok.2.2]
+      congr 1
+
+/-- witness (#26): `produces: [application/xml]` — the response schema does not come back -/
+theorem roundtripResp_witness_produces :
+    let r : RRef2 Nat := .val { desc := "ok", headers := [], schema := some (.node { ty := some "string" } []) }
+    respLossy ["application/xml"] r = true ∧
+    respA2 (fromV3Resp (toV3Resp ["application/xml"] r)) ≠ respA2 r := by
+  simp [respLossy, effProduces, toV3Resp, fromV3Resp, respA2]
+
+/-- non-vacuity: a 302 with a Location header and no schema, under `produces: [application/xml]`, is outside
+    the exclusion (and inside the hypotheses of both response theorems) -/
+example :
+    let h : Param2 Nat := { name := "", loc := "", required := false, cons := { ty := some "string" },
+                            items := none, schema := none }
+    let r : RRef2 Nat := .val { desc := "moved", schema := none, headers := [("Location", h)] }
+    respLossy ["application/xml"] r = false ∧
+    (match r with | .ref k _ => k.isV2 = true | .val x => x.headers.all headerOKBack = true ∧ schemaOKBack x.schema = true) := by
+  decide
+
+/-! ## security schemes -/
+
+/-- the schemes of the fragment: basic, apiKey, and oauth2 with one of the four flows -/
+def secInFragment (s : Sec2) : Bool :=
+  s.type == "basic" || s.type == "apiKey" ||
+  (s.type == "oauth2" && (s.flow == "implicit" || s.flow == "accessCode" || s.flow == "password" || s.flow == "application"))
+
+/-- **security definitions become the corresponding schemes** -/
+theorem toV3Sec_preserves (s : Sec2) (h : secInFragment s = true) :
+    ∃ t, toV3Sec s = some t ∧ secA3 t = secA2 s := by
+  simp only [secInFragment, Bool.or_eq_true, Bool.and_eq_true, beq_iff_eq] at h
+  rcases h with (h | h) | ⟨h, hf⟩
+  · simp [toV3Sec, secA3, secA2, h]
+  · simp [toV3Sec, secA3, secA2, h]
+  · rcases hf with ((hf | hf) | hf) | hf <;> simp [toV3Sec, secA3, secA2, h, hf, usesAuth, usesToken]
+
+/-- **… and come back as the same scheme**: every flow gets back the URLs it uses and its scopes -/
+theorem roundtripSec (s : Sec2) (h : secInFragment s = true) :
+    ∃ t s', toV3Sec s = some t ∧ fromV3Sec t = .ok s' ∧ secA2 s' = secA2 s := by
+  simp only [secInFragment, Bool.or_eq_true, Bool.and_eq_true, beq_iff_eq] at h
+  rcases h with (h | h) | ⟨h, hf⟩
+  · simp [toV3Sec, fromV3Sec, secA2, h]
+  · simp [toV3Sec, fromV3Sec, secA2, h]
+  · rcases hf with ((hf | hf) | hf) | hf <;> simp [toV3Sec, fromV3Sec, secA2, h, hf, usesAuth, usesToken]
+
+/-- non-vacuity: the accessCode flow (the one with both URLs) is in the fragment -/
+example : secInFragment { type := "oauth2", flow := "accessCode", authUrl := "https://a/x", tokenUrl := "https://a/t",
+                          scopes := [("r", "read")] } = true := by decide
+
+/-! ## servers -/
+
+/-- Full statement: `toV3Servers l = serversA2 l`. It fails when `host` is absent (finding #39).
+    **host, base path and schemes become servers** -/
+theorem servers_preserved_partial (l : Loc2) (h : l.host ≠ "") : toV3Servers l = serversA2 l := by
+  simp [toV3Servers, serversA2, h]
+
+/-- witness (#39): `basePath: /v1` without `host` — no server, the base path is lost -/
+theorem servers_witness_basePath :
+    let l : Loc2 := { host := "", basePath := "/v1", schemes := [] }
+    toV3Servers l ≠ serversA2 l := by
+  decide
+
+/-- Full statement: the servers of `fromV3Servers (toV3Servers l)` are those of `l` (as a set). It fails when
+    `host` is absent (#39) or a scheme other than http/https is listed (F-C17-10). -/
+theorem servers_roundtrip_partial (l : Loc2) (h : l.host ≠ "")
+    (hs : ∀ x ∈ l.schemes, x = "http" ∨ x = "https") :
+    ∀ x, x ∈ serversA2 (fromV3Servers (toV3Servers l)) ↔ x ∈ serversA2 l := by
+  intro x
+  cases hsch : l.schemes with
+  | nil =>
+    simp [toV3Servers, fromV3Servers, serversA2, h, hsch]
+    by_cases hb : l.basePath = "" <;> simp [hb]
+  | cons s0 rest =>
+    have hb : (if l.basePath = "" then "/" else l.basePath) ≠ "" := by
+      by_cases hb : l.basePath = "" <;> simp [hb]
+    have hs' : ∀ y, y ∈ s0 :: rest → y = "http" ∨ y = "https" := by simpa [hsch] using hs
+    simp only [toV3Servers, fromV3Servers, serversA2, h, hsch, if_false, List.isEmpty_cons, List.map_cons,
+      List.any_cons, List.any_map, Function.comp_def, false_and, Bool.false_eq_true]
+    have key : ∀ y, y ∈ ((if (s0 == "https" || rest.any (· == "https")) = true then ["https"] else []) ++
+        (if (s0 == "http" || rest.any (· == "http")) = true then ["http"] else [])) ↔ y ∈ s0 :: rest := by
+      intro y
+      constructor
+      · intro hy
+        simp only [List.mem_append] at hy
+        rcases hy with hy | hy
+        · split at hy
+          · rename_i hc
+            simp only [List.mem_singleton] at hy; subst hy
+            simp only [Bool.or_eq_true, beq_iff_eq, List.any_eq_true] at hc
+            rcases hc with hc | ⟨z, hz, hzz⟩
+            · simp [hc]
+            · simp [← hzz, hz]
+          · simp at hy
+        · split at hy
+          · rename_i hc
+            simp only [List.mem_singleton] at hy; subst hy
+            simp only [Bool.or_eq_true, beq_iff_eq, List.any_eq_true] at hc
+            rcases hc with hc | ⟨z, hz, hzz⟩
+            · simp [hc]
+            · simp [← hzz, hz]
+          · simp at hy
+      · intro hy
+        rcases hs' y hy with hy' | hy'
+        · subst hy'
+          have : (s0 == "http" || rest.any (· == "http")) = true := by
+            simp only [List.mem_cons] at hy
+            rcases hy with hy | hy
+            · simp [← hy]
+            · simp only [Bool.or_eq_true, List.any_eq_true]; exact Or.inr ⟨_, hy, by simp⟩
+          simp [this]
+        · subst hy'
+          have : (s0 == "https" || rest.any (· == "https")) = true := by
+            simp only [List.mem_cons] at hy
+            rcases hy with hy | hy
+            · simp [← hy]
+            · simp only [Bool.or_eq_true, List.any_eq_true]; exact Or.inr ⟨_, hy, by simp⟩
+          simp [this]
+    have hne : (((if (s0 == "https" || rest.any (· == "https")) = true then ["https"] else []) ++
+        (if (s0 == "http" || rest.any (· == "http")) = true then ["http"] else [])) : List String).isEmpty = false := by
+      rcases hs' s0 (by simp) with h0 | h0 <;> simp [h0]
+    simp only [hne, Bool.false_eq_true, if_false, hb]
+    simp only [List.mem_map, List.mem_cons]
+    constructor
+    · rintro ⟨y, hy, rfl⟩
+      have hm := (key y).1 hy
+      simp only [List.mem_cons] at hm
+      rcases hm with rfl | hm
+      · exact Or.inl rfl
+      · exact Or.inr ⟨y, hm, rfl⟩
+    · rintro (rfl | ⟨y, hy, rfl⟩)
+      · exact ⟨s0, (key s0).2 (by simp), rfl⟩
+      · exact ⟨y, (key y).2 (by simp [hy]), rfl⟩
+
+/-- witness (F-C17-10): scheme `ws` is lost by the round trip (the result is read as https) -/
+theorem servers_witness_ws :
+    let l : Loc2 := { host := "h", basePath := "/", schemes := ["ws"] }
+    serversA2 (fromV3Servers (toV3Servers l)) ≠ serversA2 l := by
+  decide
+
 end KinModel.Conv
